@@ -51,6 +51,8 @@ type Contract struct {
 	Line      int
 	File      string
 	Opaque    bool
+	Bounded   bool // no proof attempted: the contract is only evaluated on the real code over a bounded universe
+	Lemma     bool
 }
 
 type Clause struct {
@@ -116,6 +118,10 @@ func parseContracts(path string, into map[string]*Contract) error {
 			cur.Trusted = true
 		case "opaque":
 			cur.Opaque = true
+		case "bounded":
+			cur.Bounded = true
+		case "lemma":
+			cur.Lemma = true
 		case "loop":
 			// loop "key" invariant|decreases expr
 			if !strings.HasPrefix(rest, `"`) {
